@@ -354,7 +354,7 @@ func (ru *runner) unpack(cons int, ki int, t *target, route int) {
 			got = got.Elem()
 		}
 	}
-	ru.judge(ki, t.k, err, got, present, call)
+	ru.judge(ki, t.k, t.k.name, err, got, present, call)
 }
 
 func variantKind(t *target) string {
@@ -406,7 +406,7 @@ func (ru *runner) getter(cons int, gi int) {
 		ru.res.Violate("panic:getter-"+g.name+"@"+topFrame(where), "panic %q at %s: %s", pv, where, call())
 		return
 	}
-	ru.judge(kindIndex(k), k, err, got, true, call)
+	ru.judge(kindIndex(k), k, g.name+"()", err, got, true, call)
 }
 
 func (ru *runner) outcome(k *tkind, o string) {
@@ -443,9 +443,10 @@ func errClass(err error) string {
 }
 
 // judge compares one observation with the expectation for (value, kind).
-func (ru *runner) judge(ki int, k *tkind, err error, got reflect.Value, present bool, call func() string) {
+// to names the target in signatures: the kind for Unpack, "Int()" etc. for getters.
+func (ru *runner) judge(ki int, k *tkind, to string, err error, got reflect.Value, present bool, call func() string) {
 	e := &ru.exp[ki]
-	from, to := ru.s.kindName(), k.name
+	from := ru.s.kindName()
 	if err != nil {
 		ru.res.SetAdd("error_reason", errClass(err))
 		switch e.mode {
